@@ -184,7 +184,21 @@ func (p *Program) modset(u *Universe, fn *ssa.Function) *ModSet {
 	if c := p.contracts[calleeName(fn)]; c != nil && (c.HasAssign || c.Pure) {
 		return p.assignsModSet(u, c)
 	}
-	return p.modsetNoFix(u, fn)
+	ms := p.modsetNoFix(u, fn)
+	coarse := ms.all
+	for _, l := range ms.vars {
+		if l > 1 {
+			coarse = true
+		}
+	}
+	if coarse && len(fn.Blocks) > 0 && fn.Package() != nil && inModule(fn.Package().Pkg) {
+		// refine with the region analysis rooted at fn: writes that only hit objects allocated
+		// during the call are level 1; dynamic calls are resolved through function values
+		if rm := p.regionModset(u, fn); rm != nil {
+			return rm
+		}
+	}
+	return ms
 }
 
 func (p *Program) assignsModSet(u *Universe, c *Contract) *ModSet {
